@@ -152,4 +152,45 @@ func c15() {
 			}
 		}
 	}
+	// the manual grow-and-reslice of encodeBytes, observed exactly (result length, capacity, whether the destination's
+	// array was kept): compared with the Coq model Json/AppendModel.v encode_bytes
+	for _, l := range []int{0, 1, 5, 64} {
+		for vlen := 0; vlen <= 40; vlen++ {
+			n := (vlen+2)/3*4 + 2
+			for _, spare := range []int{0, 1, n - 1, n, n + 1, 2*n + 64} {
+				jEncBytes(l, l+spare, vlen)
+			}
+		}
+	}
+}
+
+func jEncBytes(l, c, vlen int) {
+	if !mine() {
+		skip()
+		return
+	}
+	args := fmt.Sprintf("%d %d %d", l, c, vlen)
+	impl := guarded(func() string {
+		backing := make([]byte, c)
+		for i := range backing {
+			backing[i] = 0xA5
+		}
+		b := backing[:l]
+		v := make([]byte, vlen)
+		for i := range v {
+			v[i] = byte(i * 37)
+		}
+		out, err := json.Append(b, v, 0)
+		if err != nil {
+			return "err"
+		}
+		kept := c > 0 && cap(out) > 0 && &out[:1][0] == &backing[:1][0]
+		for i := 0; i < l; i++ {
+			if backing[i] != 0xA5 || out[i] != 0xA5 {
+				return "PREFIX-CHANGED"
+			}
+		}
+		return fmt.Sprintf("%d %d %v", len(out), cap(out), !kept)
+	})
+	emit("j.encbytes", args, impl, "-")
 }
